@@ -194,6 +194,31 @@ def print_assumptions(pid, module, theorems):
     return res, o
 
 
+def coqchk(module, timeout=3000):
+    """independent re-check of a compiled module and everything it depends on (thorough tier).
+    Cached by the hash of the .vo files under coq/.  Returns (ok, summary_text)."""
+    h = hashlib.sha256()
+    for root, _, names in sorted(os.walk(COQ)):
+        for n in sorted(names):
+            if n.endswith(".vo"):
+                h.update(n.encode())
+                h.update(open(os.path.join(root, n), "rb").read())
+    key = module + "-" + h.hexdigest()[:20]
+    cdir = os.path.join(OUT, "coqchk")
+    os.makedirs(cdir, exist_ok=True)
+    cpath = os.path.join(cdir, key + ".txt")
+    if os.path.exists(cpath):
+        o = open(cpath).read()
+        return "CHK-OK" in o, o
+    rc, o = sh(["coqchk", "-silent", "-o", "-Q", COQ, "HV", "HV." + module], cwd=COQ, timeout=timeout)
+    summary = o[o.find("CONTEXT SUMMARY"):] if "CONTEXT SUMMARY" in o else o[-3000:]
+    ok = rc == 0 and "CONTEXT SUMMARY" in o
+    text = ("CHK-OK\n" if ok else "CHK-FAILED rc=%s\n" % rc) + summary
+    with open(cpath, "w") as f:
+        f.write(text)
+    return ok, text
+
+
 # --------------------------------------------------------------------------- Go
 
 def overlay_for(pid, mapping):
